@@ -1074,6 +1074,36 @@ func main() {
 		if len(raw) == 0 {
 			raw = rp.Replay.Input
 		}
+		var probe struct {
+			Mode string `json:"mode"`
+		}
+		_ = json.Unmarshal(raw, &probe)
+		switch probe.Mode {
+		case "conc-steps":
+			var c ConcCase
+			if err := json.Unmarshal(raw, &c); err != nil {
+				panic(err)
+			}
+			wk := &worker{}
+			emitConc(w, c, wk.run(c.history()))
+			wk.stop()
+			w.Close()
+			return
+		case "set-stress", "pipe-stress":
+			var sc StressCase
+			if err := json.Unmarshal(raw, &sc); err != nil {
+				panic(err)
+			}
+			for i := 0; i < 3; i++ { // a race: the replay repeats the case
+				if sc.Mode == "set-stress" {
+					setStressCase(w, sc)
+				} else {
+					pipeStressCase(w, sc)
+				}
+			}
+			w.Close()
+			return
+		}
 		var h History
 		if err := json.Unmarshal(raw, &h); err != nil || len(h.Steps) == 0 {
 			fmt.Fprintln(os.Stderr, "replay file holds no history (collector cases are replayed by seed)")
@@ -1089,15 +1119,27 @@ func main() {
 		w.Close()
 		return
 	}
-	nColl, nHist := 600, 330
+	nColl, nHist, nConc := 600, 330, 120
+	nSet, setDocs, nPipe, pipeDocs, pipeRounds := 3, 60000, 3, 30000, 4
 	if *tier == "thorough" {
-		nColl, nHist = 12000, 6000
+		nColl, nHist, nConc = 12000, 6000, 2000
+		nSet, nPipe, pipeRounds = 12, 10, 6
+	}
+	only := os.Getenv("HC17_ONLY") // "conc": the concurrent classes only (mutation testing aid)
+	if only == "conc" {
+		nColl, nHist = 0, 0
 	}
 	r := rng.New(*seed)
 	collectorCases(w, r.Fork(), nColl)
 
 	hr := r.Fork()
-	hs := make([]History, nHist)
+	cr := r.Fork()
+	sr := r.Fork()
+	ccs := make([]ConcCase, nConc)
+	for i := range ccs {
+		ccs[i] = genConcCase(cr.Fork())
+	}
+	hs := make([]History, nHist, nHist+nConc)
 	for i := range hs {
 		switch k := hr.Intn(10); {
 		case k < 4:
@@ -1110,7 +1152,10 @@ func main() {
 			hs[i] = genScenario(hr.Fork(), []string{"scn-restart-between", "scn-seal-repeat", "scn-overlap", "scn-degenerate"}[hr.Intn(4)])
 		}
 	}
-	results := make([]histResult, nHist)
+	for _, c := range ccs {
+		hs = append(hs, c.history())
+	}
+	results := make([]histResult, len(hs))
 	var wg sync.WaitGroup
 	next := make(chan int)
 	for k := 0; k < 4; k++ {
@@ -1129,11 +1174,24 @@ func main() {
 	}
 	close(next)
 	wg.Wait()
-	for _, res := range results {
+	for _, res := range results[:nHist] {
 		emitHistory(w, res)
 	}
-	probeNewToken(w)
-	probeSameBulkDuplicate(w)
+	for i, c := range ccs {
+		emitConc(w, c, results[nHist+i])
+	}
+	// the stress cases run alone: the overlap of the critical sections needs the CPUs
+	for _, sc := range genStress(sr, nSet, setDocs, nPipe, pipeDocs, pipeRounds) {
+		if sc.Mode == "set-stress" {
+			setStressCase(w, sc)
+		} else {
+			pipeStressCase(w, sc)
+		}
+	}
+	if only == "" {
+		probeNewToken(w)
+		probeSameBulkDuplicate(w)
+	}
 	w.Extra["seconds"] = time.Since(t0).Seconds()
 	if err := w.Close(); err != nil {
 		panic(err)
